@@ -53,6 +53,13 @@ func BoundedModels(ex *symex.Exec, o *symex.Obligation, timeout time.Duration, s
 			gv = append(gv, w.Term)
 		case "str":
 			strBounds(w.Term, &b, &gv)
+		case "bytes":
+			fmt.Fprintf(&b, "(assert (<= %s 24))\n", w.Len)
+			gv = append(gv, w.Len)
+			for j := 0; j < 24; j++ {
+				fmt.Fprintf(&b, "(assert (and (<= 32 (select %s %d)) (<= (select %s %d) 126)))\n", w.Term, j, w.Term, j)
+				gv = append(gv, fmt.Sprintf("(select %s %d)", w.Term, j))
+			}
 		case "strs":
 			fmt.Fprintf(&b, "(assert (<= %s %d))\n", w.Len, maxElems)
 			gv = append(gv, w.Len)
@@ -115,6 +122,18 @@ func BoundedModels(ex *symex.Exec, o *symex.Obligation, timeout time.Duration, s
 				c.Values[w.Name] = vals[w.Term] == "true"
 			case "str":
 				c.Values[w.Name] = str(w.Term)
+			case "bytes":
+				n, _ := strconv.Atoi(vals[w.Len])
+				if n < 0 || n > 24 {
+					ok = false
+					n = 0
+				}
+				bs := make([]byte, n)
+				for j := 0; j < n; j++ {
+					v, _ := strconv.Atoi(vals[fmt.Sprintf("(select %s %d)", w.Term, j)])
+					bs[j] = byte(v)
+				}
+				c.Values[w.Name] = string(bs)
 			case "strs":
 				n, _ := strconv.Atoi(vals[w.Len])
 				if n < 0 || n > maxElems {
